@@ -76,7 +76,24 @@ def list_ops(defs, locs):
             nd[t] = dsc
             if not U.is_cyclic(nd):
                 ops.append(("expr", t, dsc))
+    # keys that cannot be hashed / unusual key types: both builds must agree on the exception
+    for t in locs[:2]:
+        for kind in ("listkey", "dictkey", "setkey", "listkey_target"):
+            ops.append(("weird", t, kind))
     return ops
+
+
+def _weird(st, op):
+    t, kind = op[1], op[2]
+    st.hist.append(f"weird {kind} -> {t}")
+    key = {"listkey": [0, 1], "dictkey": {"x": 1}, "setkey": {0}, "listkey_target": [0]}[kind]
+    if kind == "listkey_target":
+        st.r["l"][key] = U.getref(st.r, t) * 2
+    else:
+        U.assign(st.r, t, st.r["l"][key])
+    # reaching this point means the library accepted an unhashable key: the program stops here,
+    # what it did so far is part of the transcript
+    raise RuntimeError("accepted an unhashable key")
 
 
 def tx(v):
@@ -102,11 +119,16 @@ def run_case(ex, case):
         ops = list_ops(st.defs, locs)
         if build == "ndset":
             ops = [o for o in ops if o[0] == "expr"]
+        if k > 0:
+            ops = [o for o in ops if o[0] != "weird"] if case.get("first_kind") != "weird" else ops
         i = case["first"] if k == 0 else ex.choose(len(ops))
         if i >= len(ops):
             return
         prog.append(i)
         try:
+            if ops[i][0] == "weird":
+                _weird(st, ops[i])
+                continue
             st.apply(ops[i])
         except (Abort, Inconclusive):
             raise
